@@ -70,16 +70,20 @@ ToUnsignedKind(k) ==
 (* ABI convention).  "eul"/"el" have enumerators outside the range of int      *)
 (* (GNU extension / C23): first of (unsigned) long, long long that fits.       *)
 (* "efs"/"efuc" have a fixed underlying type (C23 6.7.2.2).                     *)
-EnumTags == {"eu", "eu2", "es", "es2", "eul", "eul2", "el", "efs", "efuc"}
+(* "ef_<kind>": an enumeration with fixed underlying type <kind> (used by the trace *)
+(* validation, where enum types are logged as "enum:<kind>").                       *)
+ProbeEnumTags == {"eu", "eu2", "es", "es2", "eul", "eul2", "el", "efs", "efuc"}
+EnumTags == ProbeEnumTags \cup {"ef_" \o k : k \in {"bool", "char", "schar", "uchar", "short", "ushort", "int", "uint", "long", "ulong", "llong", "ullong"}}
 EnumBase(tag) ==
-  CASE tag \in {"eu", "eu2"} -> "uint"
+  CASE Len(tag) > 3 /\ SubSeq(tag, 1, 3) = "ef_" -> SubSeq(tag, 4, Len(tag))
+    [] tag \in {"eu", "eu2"} -> "uint"
     [] tag \in {"es", "es2"} -> "int"
     [] tag \in {"eul", "eul2"} -> "ulong"
     [] tag = "el" -> "long"
     [] tag = "efs" -> "short"
     [] tag = "efuc" -> "uchar"
 EnumIsC11(tag) == tag \in {"eu", "eu2", "es", "es2"}      \* all enumerators representable as int (6.7.2.2p2)
-EnumIsFixed(tag) == tag \in {"efs", "efuc"}
+EnumIsFixed(tag) == tag \in {"efs", "efuc"} \/ (Len(tag) > 3 /\ SubSeq(tag, 1, 3) = "ef_")
 
 (* ------------------------------------------------------------------------ *)
 (* Constructors                                                               *)
